@@ -99,6 +99,13 @@ DIRECTED = [
     "functie f() { f() } f()", "functie f(a, b, c, d) { stel e = 1; stel g = 2; f(a, b, c, d) } f(1, 2, 3, 4)",
     "functie f(n) { [n, f(n + 1)] } f(0)", "functie big(a) { stel b = 1; stel c = 2; als a < 21000 { antwoord big(a + 1); }; a } big(0)",
     "functie big(a) { stel b = 1; stel c = 2; als a < 22000 { antwoord big(a + 1); }; a } big(0)",
+    # a function inside a function sees its own activation and the globals, never the enclosing activation
+    "stel stap = 100; functie mk(stap) { functie(x) { x * stap } } mk(3)(2)",
+    "stel stap = 100; stel basis = 7; functie mk(stap, basis) { stel extra = 1; functie(x) { x * stap + basis } } mk(3, 4)(2)",
+    "functie outer(a) { functie inner(b) { a } inner(1) } outer(5)",
+    "stel a = 7; functie outer(a) { stel z = 1; functie inner(b) { a = a + b; a } [inner(1), a] } [outer(50), a]",
+    "stel t = 0; functie outer(p, q) { stel l = 9; functie inner() { stel m = 3; t = t + m; m } inner() + l + p + q } [outer(1, 2), t]",
+    "functie outer(n) { functie inner(n) { als n < 1 { antwoord 0 }; n + inner(n - 1) } inner(n) * 2 } outer(4)",
 ]
 
 
